@@ -417,11 +417,13 @@ class Simulator(EventProducer, SimulatorInterface, Generic[TIME]):
         if self._simulator_time > self._replication.end_sim_time:
             raise DSOLError("cannot start: simulator_time > run length")
         try:
+            # running from here on: a start() or step() issued by a listener
+            # of START_REPLICATION_EVENT has to be refused, as it is in start()
+            self._run_state = RunState.STARTED
             if self._replication_state == ReplicationState.INITIALIZED:
                 self.fire_timed(self._simulator_time,
                     ReplicationInterface.START_REPLICATION_EVENT, None)
                 self._replication_state = ReplicationState.STARTED
-            self._run_state = RunState.STARTED
             self.fire_timed(self._simulator_time,
                             Simulator.START_EVENT, None)
             self._step_impl()
